@@ -19,70 +19,70 @@ import Desync.Generated.Facts
 namespace Desync.GCS.Expected
 
 def gcsGetSkel : List String := [
-  "l0,err := s.client.Object(s.nameFromID(p0)).NewReader(context.TODO())",
-  "if err==storage.ErrObjectNotExist",
+  "l0,l1 := s.client.Object(s.nameFromID(p0)).NewReader(emptyCtx)",
+  "if l1==storage.ErrObjectNotExist",
   "{",
   "return nil,ChunkMissing{ID:p0}",
   "}",
-  "if err!=nil",
+  "if l1!=nil",
   "{",
-  "return nil,errors.Wrap(err,s.String())",
+  "return nil,errors.Wrap(l1,s.String())",
   "}",
   "defer l0.Close()",
-  "l1,err := ioutil.ReadAll(l0)",
-  "if err==storage.ErrObjectNotExist",
+  "l2,l1 := ioutil.ReadAll(l0)",
+  "if l1==storage.ErrObjectNotExist",
   "{",
   "return nil,ChunkMissing{ID:p0}",
   "}",
-  "if err!=nil",
+  "if l1!=nil",
   "{",
-  "return nil,errors.Wrap(err,fmt.Sprintf(\"…\",p0))",
+  "return nil,errors.Wrap(l1,fmt.Sprintf(\"…\",p0))",
   "}",
-  "return NewChunkFromStorage(p0,l1,s.converters,s.opt.SkipVerify)"]
+  "return NewChunkFromStorage(p0,l2,s.converters,s.opt.SkipVerify)"]
 
 def gcsStoreSkel : List String := [
-  "l0,err := p0.Data()",
-  "if err!=nil",
+  "l0,l1 := p0.Data()",
+  "if l1!=nil",
   "{",
-  "return err",
+  "return l1",
   "}",
-  "l0,err = s.converters.toStorage(l0)",
-  "if err!=nil",
+  "l0,l1 = s.converters.toStorage(l0)",
+  "if l1!=nil",
   "{",
-  "return err",
+  "return l1",
   "}",
-  "l1 := bytes.NewReader(l0)",
-  "l2 := s.client.Object(s.nameFromID(p0.ID())).NewWriter(context.TODO())",
-  "l2.ContentType = \"…\"",
-  "_,err = io.Copy(l2,l1)",
-  "if err!=nil",
+  "l2 := bytes.NewReader(l0)",
+  "l3 := s.client.Object(s.nameFromID(p0.ID())).NewWriter(emptyCtx)",
+  "l3.ContentType = \"…\"",
+  "_,l1 = io.Copy(l3,l2)",
+  "if l1!=nil",
   "{",
-  "return errors.Wrap(err,s.String())",
+  "return errors.Wrap(l1,s.String())",
   "}",
-  "err = l2.Close()",
-  "if err!=nil",
+  "l1 = l3.Close()",
+  "if l1!=nil",
   "{",
-  "return errors.Wrap(err,s.String())",
+  "return errors.Wrap(l1,s.String())",
   "}",
   "return nil"]
 
 def gcsHasSkel : List String := [
-  "_,err := s.client.Object(s.nameFromID(p0)).Attrs(context.TODO())",
-  "if err==storage.ErrObjectNotExist",
+  "_,l0 := s.client.Object(s.nameFromID(p0)).Attrs(emptyCtx)",
+  "if l0==storage.ErrObjectNotExist",
   "{",
   "return false,nil",
   "}",
-  "if err!=nil",
+  "if l0!=nil",
   "{",
-  "return false,err",
+  "return false,l0",
   "}",
   "return true,nil"]
 
 def gcsRemoveSkel : List String := [
-  "err := s.client.Object(s.nameFromID(p0)).Delete(context.TODO())",
-  "if err!=nil",
+  "l0 := s.client.Object(s.nameFromID(p0)).Delete(emptyCtx)",
+  "if l0!=nil",
   "{",
-  "return err",
+  "return l0",
   "}",
   "return nil"]
 
@@ -90,25 +90,25 @@ def gcsPruneSkel : List String := [
   "l0 := s.client.Objects(p0,&storage.Query{Prefix:s.prefix})",
   "for ;;",
   "{",
-  "l1,err := l0.Next()",
-  "if err==iterator.Done",
+  "l1,l2 := l0.Next()",
+  "if l2==iterator.Done",
   "{",
   "break",
   "}",
-  "if err!=nil",
+  "if l2!=nil",
   "{",
-  "return err",
+  "return l2",
   "}",
-  "l2,err := s.idFromName(l1.Name)",
-  "if err!=nil",
+  "l3,l2 := s.idFromName(l1.Name)",
+  "if l2!=nil",
   "{",
   "continue",
   "}",
-  "if _,l3 := p1[l2]; !l3",
+  "if _,l4 := p1[l3]; !l4",
   "{",
-  "if err = s.RemoveChunk(l2); err!=nil",
+  "if l2 = s.RemoveChunk(l3); l2!=nil",
   "{",
-  "return err",
+  "return l2",
   "}",
   "}",
   "}",
@@ -166,39 +166,39 @@ def gcsNormalizePrefixSkel : List String := [
   "return l0"]
 
 def gcsIndexReaderSkel : List String := [
-  "l0,err := s.client.Object(s.prefix+p0).NewReader(context.TODO())",
-  "if err==storage.ErrObjectNotExist",
+  "l0,l1 := s.client.Object(s.prefix+p0).NewReader(emptyCtx)",
+  "if l1==storage.ErrObjectNotExist",
   "{",
-  "return nil,errors.Wrap(err,s.String())",
+  "return nil,errors.Wrap(l1,s.String())",
   "}",
-  "if err!=nil",
+  "if l1!=nil",
   "{",
-  "return nil,errors.Wrap(err,s.String())",
+  "return nil,errors.Wrap(l1,s.String())",
   "}",
   "return l0,nil"]
 
 def gcsIndexGetSkel : List String := [
-  "l0,err := s.GetIndexReader(p0)",
-  "if err!=nil",
+  "l0,l1 := s.GetIndexReader(p0)",
+  "if l1!=nil",
   "{",
-  "return i,err",
+  "return i,l1",
   "}",
   "defer l0.Close()",
   "return IndexFromReader(l0)"]
 
 def gcsIndexStoreSkel : List String := [
-  "l0 := s.client.Object(s.prefix+p0).NewWriter(context.TODO())",
+  "l0 := s.client.Object(s.prefix+p0).NewWriter(emptyCtx)",
   "l0.ContentType = \"…\"",
-  "_,err := p1.WriteTo(l0)",
-  "if err!=nil",
+  "_,l1 := p1.WriteTo(l0)",
+  "if l1!=nil",
   "{",
   "l0.Close()",
-  "return errors.Wrap(err,path.Base(s.Location))",
+  "return errors.Wrap(l1,path.Base(s.Location))",
   "}",
-  "err = l0.Close()",
-  "if err!=nil",
+  "l1 = l0.Close()",
+  "if l1!=nil",
   "{",
-  "return errors.Wrap(err,path.Base(s.Location))",
+  "return errors.Wrap(l1,path.Base(s.Location))",
   "}",
   "return nil"]
 
